@@ -124,6 +124,8 @@ class FeedAnimals(Contract):
             out[f"species{k}_fed_count_is_this_months"] = Implies(need > 0, And(
                 fed >= 0, fed <= p["herd"], Implies(delivered == need, fed == p["herd"]),
                 Implies(delivered < need, Abs(fed - p["herd"] * delivered / need) <= V(1) / 2)))
+            # a species that owes nothing (an emptied herd) has its count refreshed too: to its whole herd
+            out[f"species{k}_owing_nothing_counts_its_whole_herd"] = Implies(need == 0, fed == p["herd"])
             g, f = If(need > 0, g_after, g), If(need > 0, f_after, f)
         out["leftover_feed_returned"] = And(res[0].kcals == f, res[1].kcals == g)
         out["leftovers_within_supplies"] = And(res[0].kcals >= 0, res[0].kcals <= a["f0"], res[1].kcals >= 0, res[1].kcals <= a["g0"])
